@@ -336,7 +336,7 @@ def miri_seeds(env):
     e = dict(fw.BASE_ENV)
     e["RUSTFLAGS"] = "--cfg hpke_verif"
     results = {}
-    for seed in range(4):
+    for seed in range(2):
         ev = os.path.join(env.work, "miri.%d.ev" % seed)
         e["MIRIFLAGS"] = "-Zmiri-disable-isolation -Zmiri-seed=%d" % seed
         cmd = ["cargo", "+nightly", "miri", "run", "--offline", "--target-dir", os.path.join(fw.VERIF, "target", "miri"), "--", "run", case, ev, "--sched", "migrate:3:%d" % seed]
